@@ -8,7 +8,8 @@ ID = "C06"
 PROP_FILE = "C06.v"
 TRANSLATORS = ["unicode_tables", "tables"]
 RULE = ("40% grammar-generated histories with periodic save ticks and stop/restart cycles sprinkled in, 60% directed ones "
-        "(present-save-request-restart-request, jumps by presenting 200/253/254/255/0, exhaustion near 254, requests from "
+        "(present-save-request-restart-request - in 40% of these the id request is handled WHILE the periodic save is in "
+        "progress (op save_during, model = save tick then request) -, jumps by presenting 200/253/254/255/0, exhaustion near 254, requests from "
         "node ids other than 255 incl. smart-sleeping requesters, long runs of requests, mixed traffic) over 5 versions x "
         "threaded/asyncio x plain/MQTT; 80% with persistence (half JSON, half pickle; restarts only there). The monitor "
         "watches every sent or withheld id response over the whole history incl. restarts. "
@@ -63,6 +64,8 @@ def run(ctx, res):
             res.nontriv(r["case"]["id"])
         p = r["case"]["cfg"].get("persist")
         res.count("persistence:" + (p.rsplit(".", 1)[1] if p else "off"))
+    res.extra["ops_handled_while_a_periodic_save_was_in_progress"] = sum(
+        1 for r in recs for o in r["case"]["ops"] if tuple(o)[0] == "save_during")
     for r in recs[:2] + recs[-2:]:
         res.sample({"cfg": r["case"]["cfg"], "ops": r["case"]["ops"][:8], "n_ops": len(r["case"]["ops"])})
 
